@@ -151,8 +151,18 @@ pub struct ProbeLog {
     /// furthest |t - x0| seen and the call index when it last increased (stall detection)
     pub far: f64,
     pub far_at: u64,
+    /// smallest |t - x0| among the evaluations of the current window of `WIN` calls, and of the two windows
+    /// completed before it (a run that still advances, however slowly, raises this minimum from window to window;
+    /// the maximum does not tell: a crawl below an earlier, rejected trial step never exceeds it)
+    pub win_calls: u64,
+    pub win_min_cur: f64,
+    pub win_min_last: f64,
+    pub win_min_prev: f64,
     pub nonfinite_rhs: u64,
 }
+
+/// window length of the progress tracking above
+pub const WIN: u64 = 1_000_000;
 
 pub struct Probe<'a> {
     pub p: &'a dyn Problem,
@@ -255,6 +265,15 @@ impl<'a> IVP for Probe<'a> {
             if d > l.far {
                 l.far = d;
                 l.far_at = total;
+            }
+            if l.win_calls == 0 || d < l.win_min_cur {
+                l.win_min_cur = d;
+            }
+            l.win_calls += 1;
+            if l.win_calls >= WIN {
+                l.win_min_prev = l.win_min_last;
+                l.win_min_last = l.win_min_cur;
+                l.win_calls = 0;
             }
             if self.keep_calls {
                 l.calls.push(CallRec { kind: if inj { 1 } else { 0 }, t: x, yh: hash_f64s(y) });
